@@ -27,6 +27,7 @@ type LineT struct {
 
 type FileObj struct {
 	name    string
+	leaf    string // file name below .ergo ("plans.jsonl", "plans.jsonl.tmp", ...) when it can be spelled
 	Exists  *Term
 	Exists0 *Term // at world initialisation
 	Cells   []*LineCell
@@ -197,10 +198,32 @@ func (w *World) fsInit() {
 func (w *World) fileT(t *Term) *FileObj {
 	f, ok := w.fs.files[t]
 	if !ok {
-		f = &FileObj{name: t.Pretty(3), Exists: False, Garbled: False}
+		f = &FileObj{name: t.Pretty(3), leaf: leafOf(t), Exists: False, Garbled: False}
 		w.fs.files[t] = f
 	}
 	return f
+}
+
+// leafOf spells a file term as the name below the store directory: pathjoin(<dir>, "x") -> "x",
+// cat(p, ".tmp") -> leaf(p)+".tmp".
+func leafOf(t *Term) string {
+	switch t.op {
+	case "uf:pathjoin":
+		if len(t.args) == 2 && t.args[1].IsConst() {
+			if l, ok := Lits.byCode[t.args[1].ival.Int64()]; ok {
+				return l
+			}
+		}
+	case "uf:cat":
+		if len(t.args) == 2 && t.args[1].IsConst() {
+			if l, ok := Lits.byCode[t.args[1].ival.Int64()]; ok {
+				if b := leafOf(t.args[0]); b != "" {
+					return b + l
+				}
+			}
+		}
+	}
+	return ""
 }
 
 func (w *World) file(path Value) *FileObj {
@@ -315,7 +338,11 @@ func (w *World) effect(c *callCtx, kind string, f *FileObj) (alive *Term, idx in
 	if f != nil {
 		name = f.name
 	}
-	fs.effects = append(fs.effects, map[string]interface{}{"i": idx, "kind": kind, "file": name, "proc": fs.proc})
+	rec := map[string]interface{}{"i": idx, "kind": kind, "file": name, "proc": fs.proc}
+	if f != nil {
+		rec["leaf"] = f.leaf
+	}
+	fs.effects = append(fs.effects, rec)
 	w.ex.scenarioMeta["effects"] = fs.effects
 	fs.effT = append(fs.effT, effRec{g: c.guard, inLock: w.lockHeld, idx: idx, f: f, kind: kind})
 	// which effects lie on the path the solver picks (the native replay needs to know)
@@ -686,7 +713,9 @@ func (w *World) fsRename(ex *Exec, c *callCtx) Value {
 				continue
 			}
 			a, b := xa.f, xb.f
-			alive, _ := w.effect(withGuard(c, g), "rename", b)
+			alive, ridx := w.effect(withGuard(c, g), "rename", b)
+			w.fs.effects[len(w.fs.effects)-1]["srcleaf"] = a.leaf
+			_ = ridx
 			// line i of the new content and line i of the old content are never both there:
 			// one cell per position (keeps the number of cells at max, not sum, of the two files)
 			var cells []*LineCell
